@@ -3,10 +3,13 @@
 package main
 
 import (
+	"time"
+
 	"github.com/hashicorp/consul/agent/structs"
 	"github.com/hashicorp/consul/api"
 	"github.com/hashicorp/consul/proto/private/pbpeering"
 	"github.com/hashicorp/consul/types"
+	"google.golang.org/protobuf/types/known/timestamppb"
 )
 
 // Fixed corpus: short hand-built histories replayed first on every run (every cut), one per shape of
@@ -63,6 +66,8 @@ func sBundle(name string) entry {
 }
 
 func scenarios(u *universe) []scenario {
+	e1, p1, e2, p2 := uuidN(0xc4, 1), uuidN(0xc4, 2), uuidN(0xc4, 3), uuidN(0xc4, 4)
+	tm := time.Unix(1700000000, 0).UTC()
 	svc := func(name string) *structs.NodeService {
 		return &structs.NodeService{ID: name, Service: name, Port: 8000}
 	}
@@ -85,6 +90,43 @@ func scenarios(u *universe) []scenario {
 		{"trust-bundle-index", []entry{at(3, sPeering(u.peerIDs[0], "peer1", false, "")), at(4, sPeering(u.peerIDs[1], "peer2", false, "")),
 			at(5, sBundle("peer2")), at(8, sBundle("peer1")), at(9, sBundle("peer2"))}},
 		{"dialer-secret", []entry{at(5, sPeering(u.peerIDs[2], "peer3", true, u.secretIDs[2]))}},
+		// accepting-side peering secrets lifecycle; every cut is followed by the rest of the script on both servers
+		{"peering-accepting-established-then-deleted", []entry{
+			at(3, eGenerate(u.peerIDs[0], "peer1", e1, true)), at(5, eExchange(u.peerIDs[0], e1, p1)), at(7, ePromote(u.peerIDs[0], p1)),
+			at(9, ePeeringState(u.peerIDs[0], "peer1", pbpeering.PeeringState_DELETING, tm)),
+			at(10, entry{data: encProto(structs.PeeringDeleteType, &pbpeering.PeeringDeleteRequest{Name: "peer1"}), kind: "peering-delete", desc: "peering-delete peer1"})}},
+		{"peering-accepting-established-then-terminated", []entry{
+			at(3, eGenerate(u.peerIDs[0], "peer1", e1, true)), at(5, eExchange(u.peerIDs[0], e1, p1)), at(7, ePromote(u.peerIDs[0], p1)),
+			at(9, ePeeringState(u.peerIDs[0], "peer1", pbpeering.PeeringState_TERMINATED, tm))}},
+		{"peering-accepting-reestablished", []entry{
+			at(3, eGenerate(u.peerIDs[0], "peer1", e1, true)), at(5, eExchange(u.peerIDs[0], e1, p1)), at(7, ePromote(u.peerIDs[0], p1)),
+			at(9, eGenerate(u.peerIDs[0], "peer1", e2, false)), at(11, eExchange(u.peerIDs[0], e2, p2)), at(13, ePromote(u.peerIDs[0], p2)),
+			at(15, eGenerate(u.peerIDs[0], "peer1", uuidN(0xc4, 5), true)),
+			at(17, ePeeringState(u.peerIDs[0], "peer1", pbpeering.PeeringState_DELETING, tm))}},
+		{"peering-accepting-out-of-order", []entry{
+			at(2, ePromote(u.peerIDs[0], p1)), // no peering yet
+			at(3, eGenerate(u.peerIDs[0], "peer1", e1, true)),
+			at(4, ePromote(u.peerIDs[0], e1)),      // promote an establishment secret
+			at(5, eExchange(u.peerIDs[0], e2, p1)), // wrong establishment secret
+			at(6, eEstablish(u.peerIDs[0], p2)),    // accepting peer calling Establish
+			at(7, eExchange(u.peerIDs[0], e1, p1)),
+			at(8, eExchange(u.peerIDs[0], e1, p2)),             // establishment secret already used
+			at(9, eGenerate(u.peerIDs[0], "peer1", p1, false)), // secret already in use
+			at(10, ePromote(u.peerIDs[0], p2)),                 // not the pending one
+			at(11, ePromote(u.peerIDs[0], p1)),
+			at(12, ePromote(u.peerIDs[0], p1)), // twice
+			at(13, eGenerate(u.peerIDs[0], "peer1", e2, false)),
+			at(14, eExchange(u.peerIDs[0], e2, p2)), // pending beside an active secret
+			at(15, ePeeringState(u.peerIDs[0], "peer1", pbpeering.PeeringState_TERMINATED, tm))}},
+		{"peering-dialer-reestablished-then-deleted", []entry{
+			at(5, sPeering(u.peerIDs[2], "peer3", true, u.secretIDs[2])),
+			at(7, eEstablish(u.peerIDs[2], u.secretIDs[3])),
+			at(8, ePromote(u.peerIDs[2], u.secretIDs[3])), // dialers cannot promote
+			at(9, func() entry {
+				p := &pbpeering.Peering{ID: u.peerIDs[2], Name: "peer3", State: pbpeering.PeeringState_DELETING, DeletedAt: timestamppb.New(tm),
+					PeerServerAddresses: []string{"10.0.0.1:8503"}, PeerID: uuidN(0xc2, 1)}
+				return entry{data: encProto(structs.PeeringWriteType, &pbpeering.PeeringWriteRequest{Peering: p}), kind: "peering-write", desc: "peering-write peer3 (dialer) state=DELETING"}
+			}())}},
 		{"node-locality", []entry{at(6, sReg(structs.RegisterRequest{Node: "n1", Address: "127.0.0.1", Locality: &structs.Locality{Region: "us-east-1", Zone: "a"}}, "register n1 with locality"))}},
 		{"kind-service-names-index", []entry{
 			at(1, sReg(structs.RegisterRequest{Node: "n1", Address: "127.0.0.1", Service: svc("web")}, "register n1 web")),
